@@ -7,3 +7,4 @@ package file
 func VerifIsBinaryASN1(b []byte) bool { return isBinaryASN1(b) }
 func VerifParseASN1Data(b []byte) Info { return parseASN1Data(b) }
 func VerifParseDERData(b []byte) Info  { return parseDERData(b) }
+func VerifRpmCountsPlausible(b []byte) bool { return rpmCountsPlausible(b) }
